@@ -1,10 +1,19 @@
 #!/bin/bash
-# Offline setup: warm the Go build cache (cgo sqlite is the slow part) and build shims.
+# Offline setup: build the C shims and pre-build every registered check binary (this warms
+# the Go build cache: the cgo sqlite dependency is the slow part).  Checks rebuild from
+# /repo's current tree on every run anyway; this only makes the first run fast.
 set -u
 HERE="$(cd "$(dirname "$0")" && pwd)"
 export GOFLAGS=-mod=mod GOPROXY=off GOSUMDB=off GOTOOLCHAIN=local CGO_ENABLED=1
-cd "$HERE/mc" && cp /repo/teamserver/go.sum go.sum
-mkdir -p "$HERE/.build"
-go build ./... 2>&1 | tail -5
+mkdir -p "$HERE/.build" "$HERE/evidence"
 [ -f "$HERE/shim/Makefile" ] && make -C "$HERE/shim" -s
+ids=$(python3 -c "import json;print(' '.join(c['property_id'] for c in json.load(open('$HERE/MANIFEST.json'))['checks']))")
+# first one alone (fills the cache with the shared dependencies), the rest 4 at a time
+first=1
+for id in $ids; do
+  if [ $first = 1 ]; then VERIF_BUILD_ONLY=1 "$HERE/run.sh" "$id" quick || echo "setup: build of $id failed"; first=0; continue; fi
+  ( VERIF_BUILD_ONLY=1 "$HERE/run.sh" "$id" quick || echo "setup: build of $id failed" ) &
+  while [ "$(jobs -r | wc -l)" -ge 4 ]; do sleep 0.2; done
+done
+wait
 exit 0
